@@ -280,23 +280,17 @@ def _shim() -> None:
 # harness 1: the compiler-level batch generator
 
 
-def _pick(tier: str, dialect: str, part: int, ci, ni, nmax: int):
-    """configuration and number of parameter sets from symbolic indexes (indexing a concrete list with a
-    symbolic index forks once per entry): few, coarse slices, so that the framework's per-slice cap on
-    recorded counterexamples bounds the replay work if everything breaks at once"""
-    names = [nm for nm in _names(tier) if nm.split("/")[0] == dialect]
-    if part >= 0:
-        names = names[part::2]
-    assume(0 <= ci < len(names))
+def _pick_n(ni, nmax: int):
+    """number of parameter sets from a symbolic index (indexing a concrete list forks once per entry)"""
     assume(1 <= ni <= nmax)
-    return names[ci], list(range(nmax + 1))[ni]
+    return list(range(nmax + 1))[ni]
 
 
-def h_batches(tier: str, dialect: str, part: int, nmax: int, sis_all: bool, ci: int, ni: int, sis: bool, bs: int, maxp: int, v: int) -> bool:
+def h_batches(cfg: str, nmax: int, sis_all: bool, ni: int, sis: bool, bs: int, maxp: int, v: int) -> bool:
     _shim()
-    cfg, n = _pick(tier, dialect, part, ci, ni, nmax)
+    n = _pick_n(ni, nmax)
     if sis and not sis_all:
-        assume(n == 3 or n == 5 or n == nmax)
+        assume(n == 3 or n == nmax)
     c = CFGS[cfg]
     imv = c.imv
     assume(1 <= bs <= n + 2)
@@ -417,9 +411,9 @@ class _Context:
         return cursor.fetchall()
 
 
-def h_sentinel(tier: str, dialect: str, nmax: int, ci: int, ni: int, bs: int, k0: int, k1: int, k2: int, k3: int, k4: int, k5: int) -> bool:
+def h_sentinel(cfg: str, nmax: int, ni: int, bs: int, k0: int, k1: int, k2: int, k3: int, k4: int, k5: int) -> bool:
     _shim()
-    cfg, n = _pick(tier, dialect, -1, ci, ni, nmax)
+    n = _pick_n(ni, nmax)
     c = CFGS[cfg]
     imv = c.imv
     assume(1 <= bs <= n + 1)
@@ -524,31 +518,22 @@ def _names(tier: str):
 
 def harnesses(tier: str) -> List[Harness]:
     q = tier == "quick"
-    nmax = 7 if q else 10
+    nmax = 6 if q else 10
     smax = 4 if q else 5
     names = _names(tier)
     META["bounds"][tier] = {"parameter sets": "1..%d" % nmax, "batch_size": "1..n+2 symbolic",
                             "insertmanyvalues_max_parameters": "off, or any value admitting 1..n+2 rows per batch (symbolic)",
-                            "setinputsizes": "off; on for n in {3,5,%d}" % nmax, "configurations": names,
+                            "setinputsizes": "off; on for n in {3,%d}" % nmax, "configurations": names,
                             "sentinel re-sort": "n <= %d, every arrival order of every batch" % smax}
-    dialects = sorted({nm.split("/")[0] for nm in names})
-    s1 = [dict(tier=tier, dialect=d, part=p, nmax=nmax, sis_all=False) for d in dialects for p in (0, 1)
-          if len([nm for nm in names if nm.split("/")[0] == d][p::2])]
-    s2 = [dict(tier=tier, dialect=d, nmax=smax, k5=0, **({"k4": 0} if smax < 5 else {})) for d in dialects]
-    return [Harness("batches", h_batches, s1, budget_s=300 if q else 1500),
-            Harness("sentinel", h_sentinel, s2, budget_s=300 if q else 1500)]
-
-
-def _resolve(a):
-    names = [nm for nm in _names(a["tier"]) if nm.split("/")[0] == a["dialect"]]
-    if a.get("part", -1) >= 0:
-        names = names[a["part"]::2]
-    return names[a["ci"]], a["ni"]
+    s1 = [dict(cfg=nm, nmax=nmax, sis_all=False) for nm in names]
+    s2 = [dict(cfg=nm, nmax=smax, k5=0, **({"k4": 0} if smax < 5 else {})) for nm in names]
+    return [Harness("batches", h_batches, s1, budget_s=120 if q else 900),
+            Harness("sentinel", h_sentinel, s2, budget_s=120 if q else 900)]
 
 
 def classify(hname, args, rep):
     a = dict(args)
-    a["cfg"], a["n"] = _resolve(a)
+    a["n"] = a["ni"]
     if hname == "batches":
         n, bs = a["n"], a["bs"]
         rel = "n<=batch_size" if n <= bs else ("n%batch_size==0" if n % bs == 0 else "n%batch_size!=0")
